@@ -60,3 +60,7 @@ ENGINE['C14'] = 'symx+odex'
 CHECKS['C14'] = (_ODEX + ' on G and a relabelled, re-ordered copy: identity of the integrator inputs (degree-based) / equivariance of the vector field for all states (node-level), decided by z3; ' + 'symx runs of the deterministic-rule simulators with tables transported by the relabelling',
                  'for every entry point and relabelling in the bound: degree-based wrappers hand identical (X0, right-hand side) to the integrator; node-level models satisfy f_G\'(Px) = P f_G(x) for all x and P X0 = X0\'; deterministic-rule simulators give identical per-node histories up to the relabelling on every path',
                  'floats as reals; graphs P3, paw, S3 (irr5); 3 relabelings (all for n=3 in thorough); L5', 'DESIGN.md 6/C14')
+ENGINE['C07'] = 'odex'
+CHECKS['C07'] = ('Taylor-mode execution of the real public entry points on exact power series (Picard iteration through the real right-hand sides) with z3 deciding coefficient equality for all tau, gamma; vector-field conjugacy with all quantities symbolic decided by z3 after clearing denominators',
+                 'all members of each equivalence group return S, I, R series that coincide to order m for all tau, gamma on the graphs / degree sequences of the bound (bounded statement); EBCM -> compact pairwise: D phi . f = g o phi for all states and parameters with degree support K <= 3 (4), hence equality for all t',
+                 'rational arithmetic exact; rho and degree sequence enumerated in the Taylor line; order m = 6 (10); L5', 'DESIGN.md 6/C07')
